@@ -10,6 +10,7 @@ at the top-level directory.
 */
 
 #include "slu_mt_ddefs.h"
+#include "slu_mt_verif.h"
 
 void
 pdgstrf_thread_finalize(pdgstrf_threadarg_t *pdgstrf_threadarg, 
@@ -111,6 +112,7 @@ pdgstrf_thread_finalize(pdgstrf_threadarg_t *pdgstrf_threadarg,
 	}
     }
     *pxgstrf_shared->info = iinfo;
+    SLU_VERIF_EV("Wrap", -1, nnzL, nnzU, Glu->supno[n], iinfo);
 
 #if ( DEBUGlevel>=2 )
     printf("Last nsuper %d\n", Glu->nsuper);
